@@ -8,10 +8,14 @@ Decides (static, on type-checked MIR of every autocomplete configuration):
  T3 accumulator kept   every `Ok(..)` returned after the first write to the accumulator returns it.
  T4 input coverage     every normal return of a renderer has either iterated `ops` / `items`, or is
                        control dependent on a test of that input's size (sibling agreement across renderers).
- T5 escaper            Shell: Display opens and closes with `'` on every Ok path and maps `'` to `'\\''`.
+ T5 escaper            Shell: Display as a transducer TABLE (abstract walk of the per-character unit, loop body or closure):
+                       a quote becomes the four characters quote-backslash-quote-quote, every other character itself; every Ok
+                       path starts and ends by writing a quote; string cuts in complete_shell use byte offsets.
  T6 dispatch           check_complete: revision 0/1/7/8/9 -> test/simple/zsh/bash/fish.
  T7 stubs agree        revision constants printed by the dump_*_completer stubs agree with T6; the
                        --bpaf-complete-style-X strings select dump_X_completer.
+ T8 line protocol      fish / elvish renderers (one candidate per line) cut a description at its first line break
+                       (found and fixed for render_fish, 1f8621c).
 Does not decide: that sourcing the text in a real shell has no other effect."""
 import re
 from core import *
